@@ -51,7 +51,7 @@ Notation newton_expandR := (@newton_expand R ROps).
 Notation interp_coeffsR := (@interp_coeffs R ROps).
 
 Lemma dd_step_linear a b l :
-  NoDup l -> Forall (eq b) (dd_stepR (map (fun x => a + b * x) l) l (tl l)).
+  NoDup l -> List.Forall (eq b) (dd_stepR (map (fun x => a + b * x) l) l (tl l)).
 Proof.
   induction l as [|x0 l1 IH]; intros ND; [constructor|].
   destruct l1 as [|x1 l2]; [constructor|].
@@ -61,7 +61,7 @@ Proof.
   - exact (IH ND).
 Qed.
 
-Lemma dd_step_const c d : forall xlo xhi, Forall (eq c) d -> Forall (eq 0) (dd_stepR d xlo xhi).
+Lemma dd_step_const c d : forall xlo xhi, List.Forall (eq c) d -> List.Forall (eq 0) (dd_stepR d xlo xhi).
 Proof.
   induction d as [|d0 d' IH]; intros xlo xhi H; [constructor|].
   destruct d' as [|d1 d'']; [constructor|].
@@ -72,7 +72,7 @@ Proof.
   - apply IH. exact H'.
 Qed.
 
-Lemma dd_cols_zero fuel : forall d xs xhi, Forall (eq 0) d -> Forall (eq 0) (dd_colsR fuel d xs xhi).
+Lemma dd_cols_zero fuel : forall d xs xhi, List.Forall (eq 0) d -> List.Forall (eq 0) (dd_colsR fuel d xs xhi).
 Proof.
   induction fuel as [|f IH]; intros d xs xhi H; [constructor|].
   destruct d as [|d0 d']; [constructor|]. cbn [dd_cols]. constructor.
@@ -80,7 +80,7 @@ Proof.
   - apply IH. apply (dd_step_const 0). exact H.
 Qed.
 
-Lemma newton_expand_zero zs : Forall (eq 0) zs -> forall xs x, polyvalR (newton_expandR zs xs) x = 0.
+Lemma newton_expand_zero zs : List.Forall (eq 0) zs -> forall xs x, polyvalR (newton_expandR zs xs) x = 0.
 Proof.
   induction zs as [|z zs IH]; intros H xs x.
   - cbn [newton_expand]. unfold polyval. cbn [fold_left]. rops. reflexivity.
@@ -110,10 +110,10 @@ Proof.
   destruct Ne as [r Er]. rewrite Er in *.
   cbn [dd_cols].
   set (zs := dd_colsR (length l2) (dd_stepR (b :: r) xs (tl (tl xs))) xs (tl (tl xs))).
-  assert (Z : Forall (eq 0) zs).
+  assert (Z : List.Forall (eq 0) zs).
   { apply dd_cols_zero. apply (dd_step_const b). exact C1. }
   unfold xs at 1. cbn [newton_expand].
-  rewrite !polyval_plin_step, (newton_expand_zero zs Z). ring.
+  rewrite !polyval_plin_step, (newton_expand_zero zs Z). rops. ring.
 Qed.
 
 (** sub-sampling lemmas *)
@@ -137,7 +137,7 @@ Proof.
   destruct i; [|apply IH; exact ND].
   constructor; [|apply IH; exact ND]. intros H. apply Hnin. eapply take_every_In. exact H.
 Qed.
-Lemma NoDup_map_ln l : Forall (fun v => 0 < v) l -> NoDup l -> NoDup (map ln l).
+Lemma NoDup_map_ln l : List.Forall (fun v => 0 < v) l -> NoDup l -> NoDup (map ln l).
 Proof.
   induction l as [|x t IH]; intros P ND; cbn [map]; [constructor|].
   inversion P as [|? ? Px Pt]; subst. apply NoDup_cons_iff in ND. destruct ND as [Hnin ND].
@@ -149,14 +149,16 @@ Qed.
 Definition power_law (a b : R) (V : R) : R := exp (a + b * ln V).
 
 Lemma node_poly_power_law order vols a b :
-  Forall (fun v => 0 < v) vols -> NoDup vols -> (2 <= length (subsample order vols))%nat ->
+  List.Forall (fun v => 0 < v) vols -> NoDup vols -> (2 <= length (subsample order vols))%nat ->
   forall x, polyvalR (@node_poly R ROps order vols (map (power_law a b) vols)) x = a + b * x.
 Proof.
   intros P ND Ln x. unfold node_poly. rops.
   rewrite subsample_map, map_map.
   rewrite (map_ext (fun v => ln (power_law a b v)) (fun v => a + b * ln v))
     by (intros v; unfold power_law; apply ln_exp).
-  rewrite <- (map_map ln (fun t => a + b * t)), <- map_rev.
+  replace (rev (map (fun v => a + b * ln v) (subsample order vols)))
+    with (map (fun t => a + b * t) (rev (map ln (subsample order vols))))
+    by (rewrite map_rev, map_map; reflexivity).
   apply interp_linear_exact.
   - apply NoDup_rev. apply NoDup_map_ln.
     + rewrite Forall_forall in *. intros v Hv. apply P. unfold subsample in Hv. eapply take_every_In. exact Hv.
@@ -174,7 +176,7 @@ Qed.
 Lemma power_law_exact_l :
   forall (lib : @library R) (m : method) (order : nat) (vols : list R) (a b : R) (grid : list R),
     m = Lagrange \/ m = Krogh ->
-    Forall (fun v => 0 < v) vols -> NoDup vols -> (2 <= length (subsample order vols))%nat ->
+    List.Forall (fun v => 0 < v) vols -> NoDup vols -> (2 <= length (subsample order vols))%nat ->
     @mode_fn R ROps lib m order vols (map (power_law a b) vols) grid =
     map (fun V => (exp (a + b * ln V), - b, 0)) grid.
 Proof.
@@ -210,7 +212,7 @@ Proof. rewrite !polyval_pv. apply pv_zeros_app. Qed.
 Lemma lsq_power_law_exact_l :
   forall (order : nat) (vols c : list R) (a b : R),
     (1 <= order)%nat -> length c = S order ->
-    Forall (fun v => 0 < v) vols -> NoDup vols -> (order < length vols)%nat ->
+    List.Forall (fun v => 0 < v) vols -> NoDup vols -> (order < length vols)%nat ->
     normal_eqs order (map ln vols) (map ln (map (power_law a b) vols)) c ->
     forall x, poly_tripleR c x = (exp (a + b * x), - b, 0).
 Proof.
@@ -291,3 +293,34 @@ Proof.
   repeat split; try reflexivity.
   exists 1%Z, QGamma. split; [right; left; reflexivity | cbn; discriminate].
 Qed.
+
+(** ---- non-vacuity of the hypotheses ---------------------------------------------------- *)
+Example power_law_hyps_satisfiable :
+  let vols := [5; 4; 3; 2; 1] in
+  List.Forall (fun v => 0 < v) vols /\ NoDup vols /\ (2 <= length (subsample 3 vols))%nat.
+Proof.
+  cbv zeta. split; [|split].
+  - repeat constructor; lra.
+  - repeat constructor; cbn [In]; intuition lra.
+  - unfold subsample, interval. cbn. lia.
+Qed.
+
+(** the generating coefficients themselves solve the normal equations (residual 0) *)
+Lemma normal_eqs_self order xs q : normal_eqs order xs (map (polyvalR q) xs) q.
+Proof.
+  intros k _. unfold normal_resid. rewrite zipw_map_same, sum_rsum. apply rsum_zero.
+  intros x. rops. ring.
+Qed.
+Example lsq_hyps_satisfiable :
+  let xs := [1; 2; 3; 4] in let q := [1; 0; 2] in
+  length q = 3%nat /\ NoDup xs /\ incl xs xs /\ (2 < length xs)%nat /\
+  normal_eqs 2 xs (map (polyvalR q) xs) q.
+Proof.
+  cbv zeta. repeat split; try (cbn; lia).
+  - repeat constructor; cbn [In]; intuition lra.
+  - apply incl_refl.
+  - apply normal_eqs_self.
+Qed.
+Example library_contract_satisfiable :
+  library_contract {| o_val := fun t => t * t; o_d1 := fun t => 2 * t; o_d2 := fun _ => 2 |}.
+Proof. split; intros t; cbn [o_val o_d1 o_d2]; auto_derive; try exact I; ring. Qed.
